@@ -528,10 +528,12 @@ def make_unique_inv(holder):
         ctx.assumptions.append(e.unfold(S.k))
         seen = S.contents(S.var("seen"))
         keep = S.contents(S.var("keep"))
-        rows = S.var("rows").seq
+        # the key of row q as the specification sees it (a tuple of the key columns' values, missing ones as None) - not the
+        # code's own list of rows, whose name and construction are free to change
+        row_key = lambda q_: M.mk_tuple(ctx, [key_value(cx, self_, p, q_) for p in ps])
         x = z3.Const("x!inv", V)
         q, j = z3.Int("q!inv"), z3.Int("j!inv")
-        return {"seen": z3.ForAll([x], seen.mem(x) == z3.Exists([q], z3.And(0 <= q, q < S.k, M.to_v(S.it, rows.at(q)) == x))),
+        return {"seen": z3.ForAll([x], seen.mem(x) == z3.Exists([q], z3.And(0 <= q, q < S.k, row_key(q) == x))),
                 "keep-length": zint(keep.len) == e.cb(S.k),
                 "keep-elements": z3.ForAll([j], z3.Implies(z3.And(0 <= j, j < zint(keep.len)), int_at(keep, j) == e.idx(j)))}
     return inv
@@ -565,7 +567,7 @@ def _mk_unique(variant_, names_):
 
     class U(_UniqueDF):
         qualname, variant, names, holder = "DataFrame.unique", variant_, names_, holder_
-        loops = {("DataFrame.unique", 0): LoopSpec(make_unique_inv(holder_), sorts={"keep": INT})}
+        loops = {("DataFrame.unique", 0): LoopSpec(make_unique_inv(holder_), sorts={"keep": INT}, kinds={"seen": "set", "keep": "list"})}
     U.__name__ = "UniqueDF_" + str(len(names_))
     return register(U)
 
@@ -822,7 +824,7 @@ _cb_holder = {}
 class CbindDF(_DF):
     """cbind(other): receiver's columns, then other's columns whose name is new (first of duplicate names wins)"""
     qualname, prop = "DataFrame.cbind", "C09"
-    loops = {("DataFrame.cbind", 0): LoopSpec(cbind_inv0), ("DataFrame.cbind", 1): LoopSpec(make_cbind_inv1(_cb_holder))}
+    loops = {("DataFrame.cbind", 0): LoopSpec(cbind_inv0, kinds={"found_colnames": "set"}), ("DataFrame.cbind", 1): LoopSpec(make_cbind_inv1(_cb_holder), kinds={"found_colnames": "set"})}
 
     def setup(self, cx):
         self_ = sym_frame(cx, "self")
@@ -1700,8 +1702,8 @@ class CbindTwoDF(_DF):
     """cbind(b, c): the first occurrence of every name wins, also between the two arguments"""
     qualname, prop, variant = "DataFrame.cbind", "C09", "two other frames"
     also = ("C01", "C06")
-    loops = {("DataFrame.cbind", 0): LoopSpec(cbind_inv0), ("DataFrame.cbind", 1): LoopSpec(make_cbind_inv1(_cb2_holder)),
-             ("DataFrame.cbind", 2): LoopSpec(make_cbind_inv2(_cb2_holder))}
+    loops = {("DataFrame.cbind", 0): LoopSpec(cbind_inv0, kinds={"found_colnames": "set"}), ("DataFrame.cbind", 1): LoopSpec(make_cbind_inv1(_cb2_holder), kinds={"found_colnames": "set"}),
+             ("DataFrame.cbind", 2): LoopSpec(make_cbind_inv2(_cb2_holder), kinds={"found_colnames": "set"})}
 
     def setup(self, cx):
         self_ = sym_frame(cx, "self")
